@@ -50,17 +50,18 @@ const (
 )
 
 type gfTarget struct {
+	group string   // `translate gofn-<group>` emits only this target (one generated file per property served)
 	file  string   // path below the repository root
 	prog  string   // Coq name of the program (list of functions)
 	funcs []string // "Name" or "Recv.Name"
 }
 
 var gfTargets = []gfTarget{
-	{"lib/math/gcd_lcm.go", "gen_prog_math", []string{"GCD", "GCDM", "LCM", "LCMM"}},
-	{"lib/mp/map.go", "gen_prog_mp", []string{"calcIndex"}},
-	{"components/guns/http/base.go", "gen_prog_httpgun", []string{"autotag"}},
-	{"core/schedule/instance_step.go", "gen_prog_istep", []string{"NewInstanceStep"}},
-	{"core/coreutil/waiter.go", "gen_prog_waiter", []string{"Waiter.IsSlowDown", "Waiter.Wait"}},
+	{"math", "lib/math/gcd_lcm.go", "gen_prog_math", []string{"GCD", "GCDM", "LCM", "LCMM"}},               // C15
+	{"mp", "lib/mp/map.go", "gen_prog_mp", []string{"calcIndex"}},                                          // C13, C19
+	{"httpgun", "components/guns/http/base.go", "gen_prog_httpgun", []string{"autotag"}},                   // C10
+	{"istep", "core/schedule/instance_step.go", "gen_prog_istep", []string{"NewInstanceStep"}},             // C12
+	{"waiter", "core/coreutil/waiter.go", "gen_prog_waiter", []string{"Waiter.IsSlowDown", "Waiter.Wait"}}, // C04
 }
 
 // constructors whose single composite-literal argument wraps the value that is returned
@@ -114,9 +115,9 @@ func gfKindOf(e ast.Expr) gfKind {
 
 type gfFile struct {
 	fset   *token.FileSet
-	consts map[string]ast.Expr     // package-level constants of the directory
+	consts map[string]ast.Expr      // package-level constants of the directory
 	decls  map[string]*ast.FuncDecl // "Name" / "Recv.Name"
-	inProg map[string]bool         // plain function names translated in this program
+	inProg map[string]bool          // plain function names translated in this program
 }
 
 type gfFn struct {
@@ -1027,11 +1028,18 @@ func (f *gfFile) translate(key string) (string, error) {
 	return b.String(), nil
 }
 
-func genGoFn(repo, out string) error {
+// genGoFn: what = "gofn" (every target) or "gofn-<group>".
+func genGoFn(what, repo, out string) error {
+	group := strings.TrimPrefix(strings.TrimPrefix(what, "gofn"), "-")
 	var b strings.Builder
-	b.WriteString("(* GENERATED by harness/cmd/translate gofn: the Go functions listed in gofn.go, re-read from\n   /repo's current tree, as abstract syntax of Lib/Imp.v.  Do not edit. *)\n")
+	fmt.Fprintf(&b, "(* GENERATED by harness/cmd/translate %s: the Go functions listed in gofn.go, re-read from\n   /repo's current tree, as abstract syntax of Lib/Imp.v.  Do not edit. *)\n", what)
 	b.WriteString("From Coq Require Import ZArith List String.\nFrom PV Require Import Lib.Imp.\nImport ListNotations.\nLocal Open Scope string_scope.\nLocal Open Scope Z_scope.\n\n")
+	n := 0
 	for _, tg := range gfTargets {
+		if group != "" && tg.group != group {
+			continue
+		}
+		n++
 		fset := token.NewFileSet()
 		path := filepath.Join(repo, tg.file)
 		gf := &gfFile{fset: fset, consts: map[string]ast.Expr{}, decls: map[string]*ast.FuncDecl{}, inProg: map[string]bool{}}
@@ -1091,6 +1099,9 @@ func genGoFn(repo, out string) error {
 			entries = append(entries, fmt.Sprintf("(%s, gen_%s)", gfQ(fn), strings.ReplaceAll(fn, ".", "_")))
 		}
 		fmt.Fprintf(&b, "Definition %s : prog := [%s].\n\n", tg.prog, strings.Join(entries, "; "))
+	}
+	if n == 0 {
+		return fmt.Errorf("gofn: unknown group %q", group)
 	}
 	return os.WriteFile(out, []byte(b.String()), 0o644)
 }
